@@ -266,20 +266,51 @@ def register(reg):
             val = stores[0].value
             made = [n for n in ast.walk(fn) if isinstance(n, ast.Assign) and isinstance(val, ast.Name) and
                     any(isinstance(t, ast.Name) and t.id == val.id for t in n.targets)]
-            ok = len(made) == 1 and ast.unparse(made[0].value) == 'LatexStandardArgumentParser(arg_spec, **kwargs)'
+            def _is_fresh_parser(v):
+                # LatexStandardArgumentParser(...) built from arg_spec and kwargs only, however the call is spelled
+                if not (isinstance(v, ast.Call) and isinstance(v.func, ast.Name) and v.func.id == 'LatexStandardArgumentParser'):
+                    return False
+                names = {x.id for a in list(v.args) + [k.value for k in v.keywords] for x in ast.walk(a) if isinstance(x, ast.Name)}
+                return names == {'arg_spec', 'kwargs'} and any(k.arg is None for k in v.keywords)
+            ok = (len(made) == 1 and _is_fresh_parser(made[0].value)) or _is_fresh_parser(val)
             params = [a.arg for a in fn.args.args] + ([fn.args.kwarg.arg] if fn.args.kwarg else [])
             ok = ok and params == ['arg_spec', 'kwargs']
-            # the key under which it is stored: arg_spec itself, or the sorted items of {'arg_spec': arg_spec} + kwargs
+            # the key under which it is stored is computed from arg_spec and kwargs only (data flow through the function's
+            # locals; how it is spelled does not matter).  That equal arguments give the same instance and different ones
+            # different instances is the cache lemma of C02 (unit get_standard_argument_parser, shared into this check),
+            # which runs the real function.
             key = stores[0].targets[0].slice
-            kname = key.id if isinstance(key, ast.Name) else None
-            kdefs = sorted(ast.unparse(n.value) for n in ast.walk(fn) if isinstance(n, ast.Assign) and
-                           any(isinstance(t, ast.Name) and t.id == kname for t in n.targets))
-            ddefs = [ast.unparse(n.value) for n in ast.walk(fn) if isinstance(n, ast.Assign) and
-                     any(isinstance(t, ast.Name) and t.id == 'd' for t in n.targets)]
-            dupd = [ast.unparse(n) for n in ast.walk(fn) if isinstance(n, ast.Call) and isinstance(n.func, ast.Attribute) and
-                    n.func.attr == 'update' and isinstance(n.func.value, ast.Name) and n.func.value.id == 'd']
-            ok = ok and kname is not None and kdefs == ['arg_spec', 'tuple(list(sorted(d.items(), key=lambda v: v[0])))'] and \
-                ddefs == ["{'arg_spec': arg_spec}"] and dupd == ['d.update(kwargs)']
+            assigned = {}
+            for n in ast.walk(fn):
+                if isinstance(n, ast.Assign):
+                    for t in n.targets:
+                        if isinstance(t, ast.Name):
+                            assigned.setdefault(t.id, []).append(n.value)
+            bound_inside = set()
+            for n in ast.walk(fn):
+                if isinstance(n, ast.Lambda):
+                    bound_inside |= {a.arg for a in n.args.args}
+                if isinstance(n, ast.comprehension):
+                    bound_inside |= {x.id for x in ast.walk(n.target) if isinstance(x, ast.Name)}
+            import builtins as _b
+            seen, todo, free = set(), [key], set()
+            while todo:
+                e = todo.pop()
+                for x in ast.walk(e):
+                    if isinstance(x, ast.Name) and isinstance(x.ctx, ast.Load) and x.id not in seen:
+                        seen.add(x.id)
+                        if x.id in assigned:
+                            todo.extend(assigned[x.id])
+                        elif x.id not in bound_inside and not hasattr(_b, x.id):
+                            free.add(x.id)
+            # a local that is also updated in place (d.update(kwargs)) takes the arguments of that call into account
+            for n in ast.walk(fn):
+                if isinstance(n, ast.Call) and isinstance(n.func, ast.Attribute) and isinstance(n.func.value, ast.Name) \
+                        and n.func.value.id in seen and n.func.attr in ('update', 'append', 'extend', 'add'):
+                    for a in n.args:
+                        free |= {x.id for x in ast.walk(a) if isinstance(x, ast.Name) and x.id not in assigned and x.id not in bound_inside
+                                 and not hasattr(_b, x.id)}
+            ok = ok and free <= {'arg_spec', 'kwargs'} and 'arg_spec' in free
         ctx.prove('frame-exception(i): the only write to the parser cache stores LatexStandardArgumentParser(arg_spec, **kwargs) under a key '
                   'built from arg_spec and kwargs', ok, 'frame')
 
@@ -288,7 +319,16 @@ def register(reg):
         meths = {f.name: f for f in cls.body if isinstance(f, ast.FunctionDef)}
         memo_stores = [n for n in ast.walk(meths['parse']) if isinstance(n, ast.Assign) and any(
             isinstance(t, ast.Attribute) and t.attr == '_arg_parser' for t in n.targets)]
-        ok = len(memo_stores) == 1 and ast.unparse(memo_stores[0].value) == 'self.get_arg_parser_instance(self.arg_spec)'
+        def _is_own_instance_call(v):
+            # self.get_arg_parser_instance(<only attributes of self>), however the call is spelled
+            if not (isinstance(v, ast.Call) and isinstance(v.func, ast.Attribute) and v.func.attr == 'get_arg_parser_instance'
+                    and isinstance(v.func.value, ast.Name) and v.func.value.id == 'self'):
+                return False
+            argnames = {x.id for a in list(v.args) + [k.value for k in v.keywords] for x in ast.walk(a) if isinstance(x, ast.Name)}
+            return argnames <= {'self'}
+        ok = len(memo_stores) == 1 and _is_own_instance_call(memo_stores[0].value)
+        memo_arg_reads = {x.attr for a in (list(memo_stores[0].value.args) + [k.value for k in memo_stores[0].value.keywords] if ok else [])
+                          for x in ast.walk(a) if isinstance(x, ast.Attribute) and isinstance(x.value, ast.Name) and x.value.id == 'self'}
         reads = {n.attr for n in ast.walk(meths['get_arg_parser_instance']) if isinstance(n, ast.Attribute) and
                  isinstance(n.value, ast.Name) and n.value.id == 'self' and isinstance(n.ctx, ast.Load)}
         written_elsewhere = set()
@@ -296,7 +336,7 @@ def register(reg):
             if nm != '__init__':
                 written_elsewhere |= {x[1].split('.', 1)[1] for x in _self_writes(f)}
         ctx.prove('frame-exception(ii): the memoised argument parser is get_arg_parser_instance(self.arg_spec), which reads only fields '
-                  'that no method but the constructor writes', ok and not (reads & written_elsewhere) and '_arg_parser' not in reads,
+                  'that no method but the constructor writes', ok and not ((reads | memo_arg_reads) & written_elsewhere) and '_arg_parser' not in reads,
                   'frame', src='reads %r; written outside __init__: %r' % (sorted(reads), sorted(written_elsewhere)))
 
         # parsing never calls a mutator of the context database
